@@ -791,14 +791,25 @@ func (c *Ctx) c13Views(m *pop3Model) {
 			if idx == nil {
 				return
 			}
-			// only LIST/UIDL arms
+			// only LIST/UIDL arms (possibly established by the callers of an extracted handler)
+			arms := m.armsOf(fn, call.Block(), map[string]bool{"LIST": true, "UIDL": true, "RETR": true, "TOP": true, "DELE": true, "STAT": true}, 0)
 			arm := ""
-			for _, e := range keywordEdges([]*ssa.Function{fn}, map[string]bool{"LIST": true, "UIDL": true}) {
-				if eng.EdgeDominates(e.b, e.k, call.Block()) {
-					arm = e.kw
+			for k := range arms {
+				if k != "LIST" && k != "UIDL" {
+					return
+				}
+				if arm == "" || k < arm {
+					arm = k
 				}
 			}
 			if arm == "" {
+				return
+			}
+			if len(arms) > 1 {
+				arm = "LIST+UIDL"
+			}
+			// only positive (+OK) replies
+			if pre, ok := eng.ReplyPrefix(call.Call.Args[len(call.Call.Args)-1]); ok && !strings.HasPrefix(pre, "+OK") {
 				return
 			}
 			nSingle++
@@ -859,23 +870,38 @@ func sprintfArgs(v ssa.Value) []ssa.Value {
 // parsedIndexInSprintf: the reply text uses messages[idx].X() with idx not a loop index;
 // returns idx.
 func parsedIndexInSprintf(v ssa.Value, m *pop3Model) ssa.Value {
-	for _, a := range sprintfArgs(v) {
-		a = unwrapIface(a)
-		call, ok := a.(*ssa.Call)
-		if !ok || !call.Call.IsInvoke() {
-			continue
-		}
-		u, ok := call.Call.Value.(*ssa.UnOp)
+	loopIdx := map[ssa.Value]bool{}
+	for _, lp := range m.snapshotLoops() {
+		loopIdx[lp.idx] = true
+	}
+	elemIdx := func(x ssa.Value) ssa.Value {
+		u, ok := unwrapIface(x).(*ssa.UnOp)
 		if !ok {
-			continue
+			return nil
 		}
 		ia, ok := u.X.(*ssa.IndexAddr)
 		if !ok || !eng.SameField(eng.LoadedField(ia.X), m.fMessages) {
+			return nil
+		}
+		if loopIdx[eng.StripConv(ia.Index)] || loopIdx[ia.Index] {
+			return nil
+		}
+		return ia.Index
+	}
+	for _, a := range sprintfArgs(v) {
+		a = unwrapIface(a)
+		call, ok := a.(*ssa.Call)
+		if !ok {
 			continue
 		}
-		if _, isPhiIdx := eng.StripConv(ia.Index).(*ssa.BinOp); isPhiIdx {
-			if fromParse(eng.StripConv(ia.Index).(*ssa.BinOp).X) {
-				return ia.Index
+		if call.Call.IsInvoke() {
+			if idx := elemIdx(call.Call.Value); idx != nil {
+				return idx
+			}
+		}
+		for _, arg := range call.Call.Args {
+			if idx := elemIdx(arg); idx != nil {
+				return idx
 			}
 		}
 	}
@@ -884,6 +910,96 @@ func parsedIndexInSprintf(v ssa.Value, m *pop3Model) ssa.Value {
 
 func fromParse(v ssa.Value) bool {
 	return fromCall(v, "strconv.ParseInt", 0) || fromCall(v, "strconv.Atoi", 0) || fromCall(v, "strconv.ParseUint", 0)
+}
+
+// guardsBound: in fn, block at is dominated by nv >= 1 and nv <= len(messages).
+func (m *pop3Model) guardsBound(fn *ssa.Function, nv ssa.Value, at *ssa.BasicBlock) (lower, upper bool) {
+	for _, bb := range fn.Blocks {
+		for e := 0; e < len(bb.Succs) && len(bb.Succs) == 2; e++ {
+			rel, ok := eng.EdgeRel(bb, e)
+			if !ok || !eng.EdgeDominates(bb, e, at) {
+				continue
+			}
+			x, y := eng.StripConv(rel.X), eng.StripConv(rel.Y)
+			if x == nv {
+				if kk, isC := eng.ConstInt(y); isC {
+					if (rel.Op == token.GEQ && kk >= 1) || (rel.Op == token.GTR && kk >= 0) {
+						lower = true
+					}
+				}
+				if lx := eng.LenOf(y); lx != nil && eng.SameField(eng.LoadedField(lx), m.fMessages) {
+					if rel.Op == token.LEQ {
+						upper = true
+					}
+				}
+			}
+		}
+	}
+	return
+}
+
+// boundedNumber decides whether nv (the 1-based message number used at `at`) is within
+// 1..len(messages): either nv is parsed here and guarded here, or it is the value result of a
+// module helper whose ok result is known true at `at` and whose every (value, true) return is
+// a parsed number guarded inside the helper.
+func (m *pop3Model) boundedNumber(nv ssa.Value, at *ssa.BasicBlock) (decided bool, lower, upper bool) {
+	nv = eng.StripConv(nv)
+	if fromParse(nv) {
+		l, u := m.guardsBound(at.Parent(), nv, at)
+		return true, l, u
+	}
+	call, idx := eng.CallAndIndex(nv)
+	if call == nil {
+		return false, false, false
+	}
+	g := eng.StaticCallee(call.Common())
+	if g == nil || !eng.InModule(g) || len(g.Blocks) == 0 {
+		return false, false, false
+	}
+	// which boolean result is known true at `at`?
+	okIdx := -1
+	for _, ref := range *call.Referrers() {
+		ex, isEx := ref.(*ssa.Extract)
+		if !isEx {
+			continue
+		}
+		if b, isB := ex.Type().Underlying().(*types.Basic); !isB || b.Kind() != types.Bool {
+			continue
+		}
+		for _, bb := range at.Parent().Blocks {
+			for e := 0; e < len(bb.Succs) && len(bb.Succs) == 2; e++ {
+				v, pol, ok := eng.CondTruth(bb, e)
+				if ok && pol && v == ssa.Value(ex) && eng.EdgeDominates(bb, e, at) {
+					okIdx = ex.Index
+				}
+			}
+		}
+	}
+	if okIdx < 0 {
+		return false, false, false
+	}
+	lower, upper = true, true
+	n := 0
+	eng.EachInstr(g, func(in ssa.Instruction) {
+		ret, isRet := in.(*ssa.Return)
+		if !isRet || eng.IsRecoverBlock(ret.Block()) {
+			return
+		}
+		res := eng.ReturnResults(ret)
+		if bv, isC := eng.ConstBool(res[okIdx]); isC && !bv {
+			return // (…, false): not used by the caller
+		}
+		n++
+		rv := eng.StripConv(res[idx])
+		if !fromParse(rv) {
+			lower, upper = false, false
+			return
+		}
+		l, u := m.guardsBound(g, rv, ret.Block())
+		lower = lower && l
+		upper = upper && u
+	})
+	return n > 0, lower, upper
 }
 
 func (c *Ctx) c13Index(m *pop3Model) {
@@ -927,38 +1043,21 @@ func (c *Ctx) c13Index(m *pop3Model) {
 						k = -kk
 					}
 				}
-			} else if fromParse(idx) {
+			} else {
 				nv, k = idx, 0
 			}
-			if nv == nil || !fromParse(nv) {
-				r.Undecided("C13/PANIC/index", cons, p.InstrPos(in), "index expression is neither a loop index nor (parsed n) - k")
+			if nv == nil {
+				r.Undecided("C13/PANIC/index", cons, p.InstrPos(in), "index expression is neither a loop index nor (message number) - k")
+				return
+			}
+			decided, lower, upper := m.boundedNumber(nv, ia.Block())
+			if !decided {
+				r.Undecided("C13/PANIC/index", cons, p.InstrPos(in), "index expression is neither a loop index nor (parsed message number) - k")
 				return
 			}
 			if k != 1 {
 				r.Bad("C13/PANIC/index", cons, p.InstrPos(in), "%s[n-(%d)]: with the guards 1 <= n <= len(messages) only n-1 is in range; this index panics for n = %s (and addresses the wrong message otherwise)", f.Name(), k, map[bool]string{true: "len(messages)", false: "1"}[k < 1])
 				return
-			}
-			lower, upper := false, false
-			for _, bb := range fn.Blocks {
-				for e := 0; e < len(bb.Succs) && len(bb.Succs) == 2; e++ {
-					rel, ok := eng.EdgeRel(bb, e)
-					if !ok || !eng.EdgeDominates(bb, e, ia.Block()) {
-						continue
-					}
-					x, y := eng.StripConv(rel.X), eng.StripConv(rel.Y)
-					if x == nv {
-						if kk, isC := eng.ConstInt(y); isC {
-							if (rel.Op == token.GEQ && kk >= 1) || (rel.Op == token.GTR && kk >= 0) {
-								lower = true
-							}
-						}
-						if lx := eng.LenOf(y); lx != nil && eng.SameField(eng.LoadedField(lx), m.fMessages) {
-							if rel.Op == token.LEQ {
-								upper = true
-							}
-						}
-					}
-				}
 			}
 			switch {
 			case !lower:
@@ -973,40 +1072,105 @@ func (c *Ctx) c13Index(m *pop3Model) {
 	r.Floor("C13/PANIC/index", "argument-derived indices into the snapshot", n, 1)
 }
 
-// viewMethod: under the LIST arm a line carries Size() of messages[idx], under UIDL ID();
-// returns a complaint or "".
-func (m *pop3Model) viewMethod(fn *ssa.Function, send *ssa.Call, at *ssa.BasicBlock, idx ssa.Value) string {
-	arm := ""
-	for _, e := range keywordEdges([]*ssa.Function{fn}, map[string]bool{"LIST": true, "UIDL": true}) {
+// armsOf: the LIST/UIDL/… keywords under whose comparison edge the block executes, looking
+// through static callers when the function itself has no such edge.
+func (m *pop3Model) armsOf(fn *ssa.Function, at *ssa.BasicBlock, kws map[string]bool, depth int) map[string]bool {
+	out := map[string]bool{}
+	for _, e := range keywordEdges([]*ssa.Function{fn}, kws) {
 		if eng.EdgeDominates(e.b, e.k, at) {
-			arm = e.kw
+			out[e.kw] = true
 		}
 	}
-	if arm == "" {
-		return ""
+	if len(out) > 0 || depth > 3 || fn.Parent() != nil {
+		return out
 	}
-	want := map[string]string{"LIST": "Size", "UIDL": "ID"}[arm]
+	for _, cs := range m.c.P.StaticCallSites(fn) {
+		in := cs.Instr.(ssa.Instruction)
+		for k := range m.armsOf(in.Parent(), in.Block(), kws, depth+1) {
+			out[k] = true
+		}
+	}
+	return out
+}
+
+// accessorOf: the storage.Message accessor a line carries for element idx: either a direct
+// invoke on messages[idx], or a call of a func-typed parameter with messages[idx] as
+// argument, in which case every caller must pass a closure that returns that accessor of
+// its parameter. Returns the set of accessor names per arm.
+func (m *pop3Model) accessorOf(fn *ssa.Function, send *ssa.Call, idx ssa.Value) (names map[string]string, found bool, why string) {
+	names = map[string]string{}
+	isElem := func(v ssa.Value) bool {
+		u, ok := unwrapIface(v).(*ssa.UnOp)
+		if !ok {
+			return false
+		}
+		ia, ok := u.X.(*ssa.IndexAddr)
+		return ok && eng.SameField(eng.LoadedField(ia.X), m.fMessages) && sameIndex(ia.Index, idx)
+	}
 	for _, a := range sprintfArgs(send.Call.Args[len(send.Call.Args)-1]) {
 		a = unwrapIface(a)
 		call, ok := a.(*ssa.Call)
-		if !ok || !call.Call.IsInvoke() {
-			continue
-		}
-		u, ok := call.Call.Value.(*ssa.UnOp)
 		if !ok {
 			continue
 		}
-		ia, ok := u.X.(*ssa.IndexAddr)
-		if !ok || !eng.SameField(eng.LoadedField(ia.X), m.fMessages) {
-			continue
+		if call.Call.IsInvoke() && isElem(call.Call.Value) {
+			names["*"] = call.Call.Method.Name()
+			return names, true, ""
 		}
-		if !sameIndex(ia.Index, idx) {
-			return "the " + arm + " line at " + m.c.P.InstrPos(send) + " reports a different message than the one numbered"
+		// attr(messages[idx]) with attr a parameter
+		if pi := eng.ParamIndex(call.Call.Value); pi >= 0 && len(call.Call.Args) == 1 && isElem(call.Call.Args[0]) {
+			for _, cs := range m.c.P.StaticCallSites(fn) {
+				in := cs.Instr.(ssa.Instruction)
+				arms := m.armsOf(in.Parent(), in.Block(), map[string]bool{"LIST": true, "UIDL": true}, 0)
+				var g *ssa.Function
+				switch fv := cs.Args[pi].(type) {
+				case *ssa.MakeClosure:
+					g, _ = fv.Fn.(*ssa.Function)
+				case *ssa.Function:
+					g = fv
+				}
+				if g == nil || len(g.Params) == 0 {
+					return names, true, "the accessor passed at " + m.c.P.InstrPos(in) + " is not a function literal"
+				}
+				acc := ""
+				for _, ret := range successReturns(g) {
+					if ic, ok := unwrapIface(ret.Results[0]).(*ssa.Call); ok && ic.Call.IsInvoke() && ic.Call.Value == ssa.Value(g.Params[0]) {
+						acc = ic.Call.Method.Name()
+					}
+				}
+				for arm := range arms {
+					names[arm] = acc
+				}
+			}
+			return names, true, ""
 		}
-		if call.Call.Method.Name() != want {
-			return "the " + arm + " line at " + m.c.P.InstrPos(send) + " carries " + call.Call.Method.Name() + "() instead of " + want + "()"
-		}
+	}
+	return names, false, ""
+}
+
+// viewMethod: under the LIST arm a line carries Size() of messages[idx], under UIDL ID();
+// returns a complaint or "".
+func (m *pop3Model) viewMethod(fn *ssa.Function, send *ssa.Call, at *ssa.BasicBlock, idx ssa.Value) string {
+	want := map[string]string{"LIST": "Size", "UIDL": "ID"}
+	arms := m.armsOf(fn, at, map[string]bool{"LIST": true, "UIDL": true}, 0)
+	if len(arms) == 0 {
 		return ""
 	}
-	return "the " + arm + " line at " + m.c.P.InstrPos(send) + " does not carry " + want + "() of the snapshot element"
+	names, found, why := m.accessorOf(fn, send, idx)
+	if why != "" {
+		return why
+	}
+	if !found {
+		return "the line at " + m.c.P.InstrPos(send) + " does not carry an accessor of the snapshot element it numbers"
+	}
+	for arm := range arms {
+		got := names[arm]
+		if got == "" {
+			got = names["*"]
+		}
+		if got != want[arm] {
+			return "the " + arm + " line at " + m.c.P.InstrPos(send) + " carries " + got + "() instead of " + want[arm] + "()"
+		}
+	}
+	return ""
 }
